@@ -10,7 +10,7 @@ RULE = (
     "throttle layers on a manual or thread-pool base, that tap in a quarter of the cases coalescing requests (it answers every second submit() with the previous, still pending, Future object); 0-5 earlier futures that are pending, running (callable blocked on a gate) or "
     "done; 1-3 submitter threads calling submit() concurrently with the one thread calling shutdown(wait in {True, False}); done-callbacks "
     "that try to submit again; tape; both clock modes). Enumerated: submit || shutdown programs for each inner stack with every single "
-    "pre-emption placement. Oracle when shutdown() has returned: every future any submit() returned that was not done by then has had "
+    "pre-emption placement; completion || submit programs (no race with shutdown) in which every bytecode instruction of cancel_on_shutdown.py is a scheduling point. Oracle when shutdown() has returned: every future any submit() returned that was not done by then has had "
     "cancel() invoked exactly once by the shutting-down thread (futures that finished meanwhile: zero or one, never two); the wrapped "
     "executor saw exactly one shutdown(), after the last of those cancels; every racing submit() either raised RuntimeError('cannot "
     "schedule new futures after shutdown') or returned a covered future. Non-trivial = a submit whose call/return interval overlaps "
@@ -63,6 +63,14 @@ def catalog():
             "setup": setup,
             "threads": [[sub("s0"), ["shutdown", "ex", False], sub("s3")], [sub("s1")], [sub("s2")]],
             "settle": 1, "final": [["open", "g"], ["sleep", 1]]}}
+    # no race with shutdown at all: an earlier future completes (its done-callback updates the book-keeping on the completing
+    # thread) while another thread submits; the sweep, much later, must still know the new future.  Every bytecode instruction
+    # of cancel_on_shutdown.py is a scheduling point here, so an update written on one source line can be split.
+    for inner in ("manual", "map"):
+        out["completion-vs-submit/" + inner] = {"inner": inner, "instr_points": ["cancel_on_shutdown.py"], "prog": {
+            "setup": [build(inner), sub("p0"), sub("p1"), ["sleep", 0.01]],
+            "threads": [[["sleep", 0.5], ["shutdown", "ex", True]], [["run", "ex", 0]], [sub("s0"), sub("s1")], [["run", "ex", 1]]],
+            "settle": 1, "final": [["sleep", 1]]}}
     return out
 
 
@@ -266,8 +274,10 @@ def run_shard(spec, ctx):
         cat = catalog()
         for name in spec["entries"]:
             ent = cat[name]
-            progs.sweep(ctx, with_probes(ent["prog"]), name, evaluate, account, double=spec.get("double"),
-                        extra={"inner": ent["inner"], "entry": name, "max_vtime": 200})
+            extra = {"inner": ent["inner"], "entry": name, "max_vtime": 200}
+            if ent.get("instr_points"):
+                extra["instr_points"] = ent["instr_points"]
+            progs.sweep(ctx, with_probes(ent["prog"]), name, evaluate, account, double=spec.get("double"), extra=extra)
     else:
         progs.random_search(ctx, spec, case_strategy(), evaluate, account)
 
